@@ -234,7 +234,8 @@ func (e *Engine) sendPoisonPill(ctx context.Context, graceful bool, pid *PID) co
 		graceful: graceful,
 	}
 	// deadletter - if we didn't find a process, we will broadcast a DeadletterEvent
-	if e.Registry.get(pid) == nil {
+	proc := e.Registry.get(pid)
+	if proc == nil {
 		e.BroadcastEvent(DeadLetterEvent{
 			Target:  pid,
 			Message: pill,
@@ -243,7 +244,12 @@ func (e *Engine) sendPoisonPill(ctx context.Context, graceful bool, pid *PID) co
 		cancel()
 		return ctx
 	}
-	e.SendLocal(pid, pill, nil)
+	// Only one pill gets to stop the process. Every other caller is signalled
+	// once the process has stopped, whatever became of its own pill.
+	if p, ok := proc.(*process); ok {
+		context.AfterFunc(p.stopCtx, cancel)
+	}
+	proc.Send(pid, pill, nil)
 	return ctx
 }
 
